@@ -3,6 +3,7 @@ import Mathlib.Tactic.Ring
 import Mathlib.Algebra.BigOperators.Group.List.Basic
 import OnlVerif.Lemmas.Port
 import OnlVerif.Net.GenSink
+import OnlVerif.Lemmas.NetworkThm
 /-!
 # C08 — packets are never lost, duplicated or invented between source and sink
 
@@ -157,4 +158,61 @@ theorem sink_interarrival (r : SinkRec ℚ) (d : Delivery ℚ) :
 example : (Gen.run (0 : ℚ) 1 (some 3) [(1, 100), (1, 200), (2, 50), (1, 70)]).map (fun p => (p.id, p.time, p.size)) =
     [(1, 2, 100), (2, 3, 200)] := by decide +kernel
 
+end C08
+
+/-!
+# C08, composition — a whole network of elements
+
+Model: `OnlVerif/Net/Network.lean`.  A network is an arbitrary wiring function `next : ι → π → Dest ι` over an arbitrary node
+type `ι` (`Fin N` for every `N`; cycles, fan-in and fan-out included — the destination is a function of the packet, so
+demultiplexers and switches are covered), splitter nodes that make fresh copies, sources that inject fresh packets.  Every node
+carries the account all element LTSs carry (`inn`, `made`, `out`, `dropped`, `held`).  "For all networks, workloads and
+schedules" = for every wiring `n` and every list of global steps `es` that `Net.run` accepts from the empty network — any
+length, any interleaving.  Proofs: `Lemmas/NetworkCount.lean` (counting), `NetworkInv.lean` (the invariant and its preservation
+by every legal global step), `NetworkThm.lean`.
+-/
+
+namespace C08
+open Net
+
+section Network
+variable {ι π κ : Type} [DecidableEq ι] [DecidableEq π] [DecidableEq κ]
+
+/-- **Every packet of a network is, at every instant, in exactly one place**: for every wiring (any node type, any `next`
+function of the packet: chains, fan-in, fan-out, cycles; splitters) and every accepted sequence of global steps from the
+empty network, every packet that was introduced — injected by a source, or made by a splitter as a copy — is in exactly
+one *place* (held by one node, or dropped by one node — the `dropped` list records the rule with it —, or delivered to one
+sink), exactly once there, both as a record and by its key (no second record with the same key is anywhere); nothing is
+in any place, nor in any log of any node, that was not introduced (nothing invented); the keys of the introduced packets
+are pairwise different; every copy is linked to an introduced original of which it is a copy and was made by a splitter
+node; and every node's account balances: handed in + made = forwarded + dropped + held, as multisets. -/
+theorem network_conserves (n : Wiring ι π κ) (es : List (GEv ι π)) (g : GState ι π) (h : Net.run n {} es = .ok g) :
+    (∀ p ∈ g.introduced, ∃ s : Slot ι, s.isPlace = true ∧ (g.recs s).count p = 1 ∧
+        ∀ s' : Slot ι, s'.isPlace = true → ((g.recs s').map n.key).count (n.key p) = if s' = s then 1 else 0) ∧
+    (∀ (s : Slot ι) (q : π), q ∈ g.recs s → q ∈ g.introduced) ∧
+    (g.introduced.map n.key).Nodup ∧
+    (∀ cp ∈ g.copies, cp.1 ∈ g.introduced ∧ cp.2 ∈ g.introduced ∧ n.isCopy cp.2 cp.1 = true) ∧
+    (∀ a q, q ∈ (g.acct a).made → n.splitter a = true ∧ ∃ o, (q, o) ∈ g.copies) ∧
+    (∀ a, ((g.acct a).inn ++ (g.acct a).made).Perm
+        ((g.acct a).out ++ (g.acct a).dropped.map (·.1) ++ (g.acct a).held)) := by
+  have hi := run_inv n es {} g (ginv_init n) h
+  refine ⟨fun p hp => hi.one_place p hp, hi.known, hi.keys, fun cp hcp => ?_, hi.made, hi.acct_perm⟩
+  have := hi.link cp hcp
+  refine ⟨?_, this.1, this.2⟩
+  simp only [GState.introduced, List.mem_append, List.mem_map]
+  exact Or.inr ⟨cp, hcp, rfl⟩
+
+/-- **What is forwarded, delivered, dropped or held is the very same record that was injected**: whatever occurs in any
+list of any node or sink — handed in, forwarded, dropped, held, delivered — is one of the introduced records, and it is
+*the* introduced record with its key: every introduced record with the same key is equal to it in every field (for the
+model's packet type `NPkt`: id, copy number, flow, source, size, creation time, payload).  (In the account network a node can
+only forward a record it holds; for networks of element transition systems this is the assumption `IdPreserving` on local
+steps, see `network_identity_lts`.) -/
+theorem network_identity (n : Wiring ι π κ) (es : List (GEv ι π)) (g : GState ι π) (h : Net.run n {} es = .ok g)
+    (s : Slot ι) (q : π) (hq : q ∈ g.recs s) :
+    q ∈ g.introduced ∧ ∀ p ∈ g.introduced, n.key p = n.key q → p = q := by
+  have hi := run_inv n es {} g (ginv_init n) h
+  exact ⟨hi.known s q hq, fun p hp hk => hi.key_inj (hi.known s q hq) hp hk⟩
+
+end Network
 end C08
